@@ -108,3 +108,40 @@ contract(
     notes="A-LS-FINITE: the least-squares sweeps (max_iterations > 0) are assumed not to overflow; "
           "the forced pass is proved for finite outputs (a parent time of +inf is the only excluded case).",
 )
+
+
+# ---------------------------------------------------------------------------------------------
+# util._relabel_mutations_node (mode real; integer reasoning) -- C29
+NN, NE, NM = "len(nodes_order)", "len(edges_parent)", "len(mutations_node)"
+IMAP = (f"forall(n, 0, {NN}, 0 <= nodes_map[n] and nodes_map[n] < {NN} and "
+        f"(nodes_map[n] == n or nodes_order[nodes_map[n]] == n))")
+IOUT = (f"forall(q, 0, m, 0 <= output[q] and output[q] < {NN} and nodes_order[output[q]] == mutations_node[q])")
+
+contract(
+    "util._relabel_mutations_node", mode="real", gen="relabel_mutations",
+    requires=[
+        f"len(edges_child) == {NE} and len(edges_left) == {NE} and len(edges_right) == {NE}",
+        f"len(insert_index) == {NE} and len(remove_index) == {NE}",
+        f"len(mutations_position) == {NM}",
+        f"forall(k, 0, {NE}, 0 <= insert_index[k] and insert_index[k] < {NE} and 0 <= remove_index[k] and remove_index[k] < {NE})",
+        f"forall(k, 0, {NE}, 0 <= edges_parent[k] and edges_parent[k] < {NN} and 0 <= edges_child[k] and edges_child[k] < {NN})",
+        f"forall(k, 0, {NN}, 0 <= nodes_order[k] and nodes_order[k] < {NN})",
+        # a mutation sits on an ORIGINAL node, and original nodes keep their id (nodes_order is the identity on them)
+        f"forall(q, 0, {NM}, 0 <= mutations_node[q] and mutations_node[q] < {NN} and nodes_order[mutations_node[q]] == mutations_node[q])",
+    ],
+    ensures=[
+        E("result-shape", f"len(result) == {NM}"),
+        E("every-mutation-gets-a-node", f"forall(q, 0, {NM}, result[q] != -1 and 0 <= result[q] and result[q] < {NN})", ["C29"]),
+        E("new-node-is-a-piece-of-the-original-node", f"forall(q, 0, {NM}, nodes_order[result[q]] == mutations_node[q])", ["C29"]),
+    ],
+    loops={
+        0: Loop("while left < sequence_length", invariants=[IMAP, IOUT, f"0 <= m and m <= {NM}", f"0 <= a and a <= {NE}", f"0 <= b and b <= {NE}",
+                                                             f"len(output) == {NM} and len(nodes_map) == {NN}"]),
+        1: Loop("while b < num_edges and remove_position[b] == left", invariants=[f"0 <= b and b <= {NE}"]),
+        2: Loop("while a < num_edges and insert_position[a] == left", invariants=[IMAP, f"0 <= a and a <= {NE}", f"len(nodes_map) == {NN}"]),
+        3: Loop("while m < num_mutations and mutations_position[m] < right", invariants=[IOUT, f"0 <= m and m <= {NM}", f"len(output) == {NM}"]),
+        4: Loop("while m < num_mutations", invariants=[IOUT, f"0 <= m and m <= {NM}", f"len(output) == {NM}"]),
+    },
+    notes="Partial correctness (no variants for the sweep loops). Proves the two defects repaired in d577c1e/f1fade2 "
+          "cannot recur: no assertion failure, no NULL node, for every placement of mutations relative to edges.",
+)
